@@ -11,9 +11,11 @@ import (
 	"fmt"
 	"net"
 	"os"
+	"runtime"
 	"runtime/debug"
 	"strings"
 	"sync"
+	"sync/atomic"
 	"testing"
 	"time"
 
@@ -297,6 +299,48 @@ func vC10Scenario(name string, seed uint64) string {
 		cs := conns
 		mu.Unlock()
 		return w.aftermath(cs, time.Since(start))
+	case "rejected-handshakes-then-stop":
+		// handshakes which are refused after the upgrade (the key was revoked while they were in progress; two of one key
+		// at the same time) must leave nothing behind that Stop waits for
+		w := vC10Setup(r)
+		verifrt.Start(nil)
+		const at = "Server.wshandler#RLock#2"
+		verifrt.Hold(at, 3)
+		for _, i := range []int{0, 1, 1} {
+			go func(i int) {
+				if c, err := vRawDial(w.addr, w.keys[i], w.skey.Pub); err == nil {
+					defer c.Close()
+					c.SetReadDeadline(time.Now().Add(3 * time.Second))
+					for {
+						if _, _, err := c.ReadMessage(); err != nil {
+							return
+						}
+					}
+				}
+			}(i)
+		}
+		held := vWaitUntil(3*time.Second, func() bool { return verifrt.Held(at) >= 3 })
+		// key 0 is revoked while its handshake is held after the upgrade; the two handshakes of key 1 will collide
+		upd := make(chan struct{})
+		go func() { _ = w.s.UpdatePublicKeys(w.keys[1].Pub, w.keys[2].Pub); close(upd) }()
+		select {
+		case <-upd:
+		case <-time.After(3 * time.Second):
+			verifrt.Release(at)
+			verifrt.Stop()
+			return "update-hangs-during-handshake"
+		}
+		verifrt.Release(at)
+		time.Sleep(150 * time.Millisecond)
+		verifrt.Stop()
+		if !held {
+			return "gate-script-infeasible/handshakes-not-held"
+		}
+		start := time.Now()
+		if !vStop(w.s, 6*time.Second) {
+			return "stop-hangs/" + strings.Join(vParked(), ",")
+		}
+		return w.aftermath(nil, time.Since(start))
 	case "write-timed-out-before-stop":
 		// a peer which stops reading: the server's write times out and its write pump leaves; the
 		// session must be gone completely (socket, read pump) when Stop has returned
@@ -351,14 +395,15 @@ func vC10Scenario(name string, seed uint64) string {
 		}
 		return w.aftermath(nil, time.Since(start))
 	case "simultaneous-stops":
-		// several Stop calls released at the same instant, on many fresh servers: none may panic or hang
-		rounds := 300
+		// several Stop calls released at the same instant (spinning barrier), on many fresh servers: none may panic or hang
+		rounds := 2500
 		for i := 0; i < rounds; i++ {
 			s := NewServer(WithCreds(vGenKey(r).Priv, nil))
-			var start, wg sync.WaitGroup
-			start.Add(1)
+			var wg sync.WaitGroup
+			var ready, goFlag int32
 			crash := make(chan string, 8)
-			for g := 0; g < 4; g++ {
+			const n = 4
+			for g := 0; g < n; g++ {
 				wg.Add(1)
 				go func() {
 					defer wg.Done()
@@ -367,11 +412,16 @@ func vC10Scenario(name string, seed uint64) string {
 							crash <- fmt.Sprintf("panic-in-simultaneous-stop/%v", p)
 						}
 					}()
-					start.Wait()
+					atomic.AddInt32(&ready, 1)
+					for atomic.LoadInt32(&goFlag) == 0 {
+					}
 					s.Stop()
 				}()
 			}
-			start.Done()
+			for atomic.LoadInt32(&ready) < n {
+				runtime.Gosched()
+			}
+			atomic.StoreInt32(&goFlag, 1)
 			done := make(chan struct{})
 			go func() { wg.Wait(); close(done) }()
 			select {
@@ -436,7 +486,7 @@ func vC10Scenario(name string, seed uint64) string {
 	return "unknown-scenario"
 }
 
-var vC10Names = []string{"open-sessions", "idle-longer-than-write-timeout", "calls-both-directions", "handshakes-in-progress", "concurrent-admin", "write-timed-out-before-stop", "simultaneous-stops"}
+var vC10Names = []string{"open-sessions", "idle-longer-than-write-timeout", "calls-both-directions", "handshakes-in-progress", "concurrent-admin", "write-timed-out-before-stop", "simultaneous-stops", "rejected-handshakes-then-stop"}
 
 func TestVerifC10Child(t *testing.T) {
 	spec := vChildSpec()
